@@ -30,6 +30,8 @@ Calls == {
   [name |-> "withRootB", root |-> "B", uses |-> {"d1", "d3"}],
   [name |-> "nobaseA",   root |-> "none", uses |-> {"d1"}],
   [name |-> "metaref",   root |-> "meta", uses |-> {}],
+  \* a document published next to the built-in meta-schemas (same hosts, another path): fetched like any other
+  [name |-> "metahost",  root |-> "none", uses |-> {"d2", "d3"}],
   [name |-> "meta",      root |-> "meta", uses |-> {}] }
 
 VARIABLES world, cwd, pkgCache, callCache, results, n
